@@ -864,13 +864,33 @@ PROPS["C16"] = dict(
              "depth — over the non-arbitrary_precision values of the build (shapeOK, floats finite) whose floats the printer / parser "
              "pair returns (the named hypothesis FloatsRoundTrip, as the statement's 'float_roundtrip or short float literals'; "
              "discharged from RyuShortest under float_roundtrip: c16_text_agrees_fr; vacuous without floats: c16_text_agrees_nofloat), "
-             "within the depth budget and outside the statement's exclusion (struct variant written as an array: hasArrayPayload). "
-             "Missing: a float value in a schema that has a 128-bit integer target (scan_integer128 consumes the integer prefix of "
-             "1.5 and the rejection comes from the caller, so the per-target invariant of the proof fails there although all three "
-             "paths reject: ERR|ERR|ERR on every generated case), and arbitrary_precision. For these the "
+             "within the depth budget and outside the statement's exclusion 'a struct variant written as an array', which is now "
+             "schema-directed both in the theorem (hx: Schema.svArr s v = false, Spec/SchemaExcl.lean) and in the executable "
+             "statement of op c16 (c16Excluded2): excluded only where an enum target with a struct variant `name` meets the "
+             "single-key object {name: [...]} on the way the deserializers visit the value (102 of 425,864 quick c16 cases of the "
+             "default build were newly included; the three real outcomes agree on each). A float value under a 128-bit integer "
+             "target is covered: scan_integer128 consumes the integer prefix of 1.5 and leaves the rejection to its caller "
+             "(has_next_element / has_next_key / end_seq / the } test of an enum / end()); the proof follows it through every "
+             "container with the weakened per-target invariant Agree1w (ok only with the unread input at . e E; "
+             "Proofs/TypedAgree128.lean int128_float_weak) under the proviso floatsPointed ext v — the printer writes such a float "
+             "with a fraction or an exponent (true of ryu, part of RyuShortest: c16_text_agrees_fr has no such hypothesis; "
+             "needed: a printer writing 1e20 as 100000000000000000000 makes from_str::<i128> accept what from_value::<i128> "
+             "refuses, kernel-checked example). Zero-length tuple variants: established on the crate (c16 d E2;5a;t0;55;u o1;s5a;a0; "
+             "=> ERR|ERR|OK:V0;Q0; in every configuration: VariantDeserializer::tuple_variant answers an empty array with "
+             "visit_unit, the text deserializer reads []) and stated for both models as a kernel-checked example — the three paths "
+             "disagree, which is exactly the case the STATEMENT names as outside the claim ('zero-length tuple variants ... accepted "
+             "from text only'), so it is no finding and the oracle keeps skipping it; zero-length tuples / tuple structs (T0;) are "
+             "inside claim and theorem (all three accept [] only). Missing: arbitrary_precision — a Value then holds number LITERALS "
+             "(any RFC 8259 spelling) and from_value converts them with str::parse (rustParseInt / rustParseF64: correctly rounded, "
+             "saturating), while the text side is unchanged (c20_typed_same); what a proof needs beyond the present one: the leaf "
+             "lemmas for an arbitrary literal (deNumber_lit exists) against rustParseInt / rustParseF64 — integer targets agree "
+             "except the literal -0 (open finding C16-ap-negative-zero), f64 targets agree when the configured conversion is "
+             "correctly rounded on the literal (float_roundtrip: C07; otherwise a named hypothesis like FloatsRoundTrip) and the "
+             "literal is in range (open finding C16-ap-non-finite-f64), Value targets differ on -0 and Display-form literals (open "
+             "findings) — and VOK / HeadOf extended to literals. For it the "
              "three-way agreement is carried by the correspondence run: the executable specification compares the three REAL "
              "outcomes on every generated pair and the driver's third model field is computed by the typed model from the text "
-             "(0 disagreements). Observation outside the claim (f32 targets are excluded by the statement): under float_roundtrip "
+             "(0 disagreements outside the three open ap findings). Observation outside the claim (f32 targets are excluded by the statement): under float_roundtrip "
              "from_value::<f32>(1.0000000596046448) = 0x3f800000 (f64 -> f32 cast, ties to even) while "
              "from_str::<f32>(\"1.0000000596046448\") = 0x3f800001 (parsed straight to f32) — c16 d g d3ff0000010000000 in the fr "
              "build; in the default build the three agree",
@@ -896,14 +916,15 @@ PROPS["C16"] = dict(
                "(the model is total and its fuel is sufficient: the result is never `fuel` once fuel > schema size), typed_progress, and "
                "c16_text_agrees_partial (text leg = from_value on every schema without f32 targets, f64 targets and float values "
                "included under the float hypothesis FloatsRoundTrip — c16_text_agrees_fr: from RyuShortest under float_roundtrip —, "
-               "except a float in a schema with a 128-bit integer target: strings, "
-               "maps with every key kind, structs, enums, IgnoredAny and nested Value included). The typed model is compared with the "
+               "floats under 128-bit integer targets included (refused by the caller of scan_integer128), the exclusion 'struct "
+               "variant written as an array' schema-directed: strings, "
+               "maps with every key kind, structs, enums, IgnoredAny and nested Value included; missing only arbitrary_precision). The typed model is compared with the "
                "crate on every C16 pair's text and on ~200k (schema, text) cases per configuration incl. mutated texts, with message, "
                "category, line and column (0 disagreements).",
     level_note="Trusted: Lean kernel + propext/Classical.choice/Quot.sound; harness/driver comparison; the universal seed and serde's visitors "
                "as transcribed; std parse/cast and ryu/Display as parameters; the hand-written typed text model (validated by "
-               "correspondence). Partial: the text leg of the three-way theorem is proved on a fragment and covered by correspondence "
-               "elsewhere. Open findings (arbitrary_precision only): literal -0, "
+               "correspondence). Partial: the text leg of the three-way theorem is proved for every build without arbitrary_precision "
+               "and covered by correspondence under it. Open findings (arbitrary_precision only): literal -0, "
                "non-finite literals into f64, Display-form literals into Value.",
 )
 
@@ -1008,26 +1029,30 @@ PROPS["C04"] = dict(
                  "code outside /repo; Model.TypedSer.progOf transcribes the calls they make (serialize_struct / serialize_field / "
                  "serialize_*_variant / collect_seq / collect_map ...), and the harness op rtm (harness/src/c04m.rs: Dyn) makes exactly "
                  "these calls against the real serializer for generated (schema, value) pairs"],
-    partial=["typed clause: c04_typed_partial (compact) and c04_typed_pretty_partial (pretty, every whitespace indent) — for every "
-             "schema of the fragment agreeFragT (bool, twelve integer widths incl. every 128-bit value, f64, char, String, byte buffers, "
-             "unit / unit struct, Option, newtype, Vec, tuples, maps with every key kind, structs, enums with unit / newtype / non-empty "
-             "tuple / struct variants) and every well-formed typed value (wfTV: inhabits the type, floats finite, strings valid UTF-8, "
-             "chars scalar, field / variant / key names distinct valid UTF-8, no Some(x) with x serialising as null) whose text nests "
-             "<= 127 deep and whose f64 members the printer / parser pair returns (the named hypothesis FloatsRoundTrip on the members): "
-             "serCompact / serPretty of the serializer program Model.TypedSer.progOf s v (the calls serde's / serde_derive's Serialize "
-             "impls make) succeeds and deTypedTop s of that text returns v, from every source. Under float_roundtrip the float "
-             "hypothesis is discharged from RyuShortest alone (c04_typed_fr, c04_typed_pretty_fr: all finite f64 members); without f64 "
-             "members it is vacuous (c04_typed_nofloat). Obtained by composition: C03 (text = render / layout of the program's image), "
-             "image_progOf (= image of the Value valueOf s v), fromValue_valueOf (from_value(to_value(v)) = v) and the text leg of C16 "
-             "on a LAYOUT (agree_gen / agree_gen_L: the typed reader skips whitespace wherever the pretty printer puts it). f32: only "
-             "the leaf (c04_typed_f32_leaf under float_roundtrip + RyuShortest: to_string(x: f32) -> from_str::<f32> = x bit for bit, "
-             "through the single_precision path linked to lexical by c07_typed_f32_link; c04_typed_f32_leaf_default under the named "
-             "hypothesis F32RoundTrip). Missing: f32 MEMBERS of containers (to_string prints an f32 with ryu's binary32 digits, which "
-             "is not the text of the widened Value, so the detour through from_value(to_value(x)) does not apply), Value members (wfTV "
-             "does not carry WFValue), IgnoredAny (no Serialize impl), zero-length tuple variants (from_value refuses {\"V\":[]}, so the "
-             "composition breaks although the text round trip holds), arbitrary_precision. All of these are "
-             "covered by the correspondence op rtm (both formatters, floats, f32, Value members, int keys: model text and model "
-             "decoded value computed, 0 disagreements) and by rtt (zoo of real derived types, model = echo)",
+    partial=["typed clause: c04_typed_partial (compact) and c04_typed_pretty_partial (pretty, every whitespace indent) — for EVERY "
+             "schema of the serialisable universe (bool, twelve integer widths incl. every 128-bit value, f64, f32, char, String, byte "
+             "buffers, unit / unit struct, Option, newtype, Vec, tuples of any length, maps with every key kind, structs, enums with "
+             "unit / newtype / tuple (zero-length included) / struct variants, Value members) and every well-formed typed value (wfTVx: "
+             "inhabits the type, floats finite, strings valid UTF-8, chars scalar, field / variant / key names distinct valid UTF-8, a "
+             "Value member is a value of the build (shapeOK), no Some(x) with x serialising as null) whose text nests <= 127 deep, whose "
+             "f64 members and floats inside Value members the printer / parser pair returns (the named hypothesis FloatsRoundTrip on the "
+             "written document valueOfL) and whose f32 members deserialize_f32 returns (F32sRoundTrip: per member, RyuShortest under "
+             "float_roundtrip, the named F32RoundTrip otherwise): serCompact / serPretty of the serializer program "
+             "Model.TypedSer.progOf s v (the calls serde's / serde_derive's Serialize impls make) succeeds and deTypedTop s of that text "
+             "returns v, from every source. Under float_roundtrip both float hypotheses are discharged from RyuShortest alone "
+             "(c04_typed_fr: both formatters, all finite f64 / f32 members; c04_typed_f32_leaf is an instance); without floats they are "
+             "vacuous (c04_typed_nofloat). Proved DIRECTLY on the written text (Proofs/TypedRT*.lean: Reads, the success direction of "
+             "the typed deserializer on the text of each member threaded through the container loops of de.rs for a layout whose "
+             "separators are whitespace; reads_gen), composed with C03 (text = render / layout of the program's image) and "
+             "image_progOfL (that image is the image of the document valueOfL, an f32 member being the number literal ryu prints); the "
+             "leaves reuse the former composition (agree_gen_L + fromValue_valueOf), which was closed to f32 members, Value members "
+             "and zero-length tuple variants. arbitrary_precision: c04_typed_ap_partial — schemas WITHOUT Value members, both "
+             "formatters, by c20's rel_top (the typed entry points other than Value do not consult the feature). Missing: typed data "
+             "WITH Value members under arbitrary_precision (a Value member then holds number literals, read back verbatim by the "
+             "machine — c04_value_ap for a bare Value; the typed leaf lemmas around it are proved with the feature off); IgnoredAny "
+             "has no Serialize impl. The correspondence op rtm (both formatters, floats, f32, Value members, int keys, zero-length "
+             "tuple variants: model text and model decoded value computed, 0 disagreements; the driver now checks the generator "
+             "against wfTVx) and rtt (zoo of real derived types, model = echo) cover all configurations",
              "floats: c04_value takes the hypothesis FloatsRoundTrip cfg ext v (for every Float in v, parsing the text ryu prints gives that "
              "Float back); under float_roundtrip it is now discharged: c04_value_fr needs only the named hypothesis RyuShortest about "
              "the external printer (C07: c07_correct / c07_roundtrip); for the default build it remains a hypothesis (C08 covers short "
@@ -1039,8 +1064,10 @@ PROPS["C04"] = dict(
               "JSON whitespace, so a harmless change of the pretty layout alarms C03 but not C04) with C01 "
               "completeness (derivable text meeting the side conditions is accepted with value canonM) and a structural induction showing "
               "canonM(cstOf(image v)) = v for every well-formed Value; differential run of the composed models against the crate's own "
-              "round trips; typed data: Lean theorems c04_typed_partial / c04_typed_pretty_partial by composition (C03 on the program progOf, "
-              "image = image of valueOf, from_value(to_value) = id, text leg of C16 generalised to layouts), differential round trips of a zoo of derived types (rtt) and of generated "
+              "round trips; typed data: Lean theorems c04_typed_partial / c04_typed_pretty_partial — C03 on the program progOf, image = image of the "
+              "document valueOfL, and a direct induction over the schema on the written text (Reads: success direction of the typed "
+              "deserializer through the container loops, for every whitespace layout; leaves from the text leg of C16 + "
+              "from_value(to_value) = id, f32 leaf from C07), c04_typed_ap_partial by c20's typed-same theorem —, differential round trips of a zoo of derived types (rtt) and of generated "
               "(schema, value) pairs with computed model text and value (rtm)",
     level_text="Machine-checked: c04_value / c04_value_pretty (for every build, source, well-formed Value v and whitespace indent: the model "
                "serializer's output parses back to exactly v, given that the float printer/parser pair returns the floats of v), "
@@ -1053,14 +1080,15 @@ PROPS["C04"] = dict(
                "of any parsed value gives it back, across sources and formatters). The crate's to_string/to_vec/to_writer(+pretty) "
                "followed by from_str/from_slice/from_reader is run on generated Values and compared both with the original and with the "
                "Lean round trip. Typed clause: c04_typed_partial / c04_typed_pretty_partial (machine-checked, both formatters, every "
-               "source, fragment with f64 members under the float hypothesis; c04_typed_fr / c04_typed_pretty_fr under float_roundtrip "
-               "from RyuShortest alone; c04_typed_f32_leaf for a bare f32); typed data (derived types covering the serde data model) is round-tripped through the crate (rtt), and "
+               "source, the whole serialisable universe incl. f32 / Value members and zero-length tuple variants, under the float "
+               "hypotheses FloatsRoundTrip / F32sRoundTrip; c04_typed_fr / c04_typed_pretty_fr under float_roundtrip "
+               "from RyuShortest alone; c04_typed_ap_partial under arbitrary_precision for schemas without Value members); typed data (derived types covering the serde data model) is round-tripped through the crate (rtt), and "
                "generated (schema, value) pairs are serialised and read back by the crate and by the models, compared byte for byte "
                "and value for value (rtm).",
     level_note="Trusted: Lean kernel + 3 standard axioms; extract.py; harness/driver; the serializer and parser models (tied by C03 and "
                "C01/C02 correspondence); itoa/ryu as parameters; serde's and serde_derive's Serialize impls as transcribed by progOf. "
-               "Partial: typed clause proved for both formatters on the fragment without f32 / Value members and zero-length tuple "
-               "variants, the rest by correspondence; float step is a named hypothesis in the default build (C08), discharged under "
+               "Partial: typed clause proved for both formatters over the whole serialisable universe without arbitrary_precision, and "
+               "under it for schemas without Value members; typed data with Value members under arbitrary_precision by correspondence; float step is a named hypothesis in the default build (C08), discharged under "
                "float_roundtrip (C07 + RyuShortest).",
 )
 
@@ -1330,9 +1358,6 @@ _add("C14", "partial", [
 _add("C16", "partial", [
     "depth: c16_text_agrees_* assume depth <= 127; beyond it from_value succeeds and the text path fails (open finding C16-text-depth-limit, "
     "generated by op c16x)",
-    "the exclusion hasArrayPayload (struct variant written as an array) over-approximates: it excludes every value containing anywhere an "
-    "object {name: [..]} whose key is the name of ANY struct variant of the schema (e.g. s = (Map<String,Vec<u8>>, enum {S{x}}), "
-    "v = [{\"S\":[1]}, {\"S\":{\"x\":true}}] agrees on the crate but is outside the theorem and dropped by the c16 oracle)",
     "both legs compare success / failure and the value; error messages are not compared",
     "c16_agree_partial restates c16_owned_borrowed",
 ])
